@@ -42,11 +42,15 @@ THEOREMS = [
     "OllamaVerif.C16.W1_fixed_variant",
     "OllamaVerif.C16.W2_graph_wraps_fixed",
     "OllamaVerif.C16.W3_minimum_wraps_fixed",
+    "OllamaVerif.C16.free_never_raised",
+    "OllamaVerif.C16.free_within_total",
+    "OllamaVerif.C16.sched_alloc_le_reported",
 ]
 # The code variant the model must mirror (0 = pinned overhead comparisons, 1 = with fix C16-W1) is detected
 # by the driver on every run by probing the real estimator with the W1 input; it is the first argument of
 # every oracle command and is reported as driver_stats code_variant_<n>.  VERIF_C16_VARIANT overrides.
 OVERLAY = {"llm/zz_verif_c16_test.go": "llm/zz_verif_c16_test.go"}
+OVERLAY_SCHED = {"server/zz_verif_c16_test.go": "server/zz_verif_c16_test.go"}
 
 
 def run(ctx):
@@ -55,14 +59,31 @@ def run(ctx):
            "VERIF_CORPUS": os.path.join(core.ROOT, "corpus", "C16")}
     if ctx.replay:
         env["VERIF_REPLAY"] = ctx.replay_line_file()
-    rc, out, outdir = ctx.go_test("./llm/", OVERLAY, "^TestVerifC16$", env=env, timeout=1500)
-    if rc != 0:
-        ctx.violation("driver-failed", "", out[-1500:], no_input=True)
-    st = ctx.read_stats(outdir)
-    ctx.coverage["code_variant"] = ("fixed (C16-W1 applied)" if st.get("code_variant_1") else
-                                    "pinned" if st.get("code_variant_0") else "undetected")
-    ctx.l1(outdir)
-    ctx.classify(ctx.l2(outdir))
+    sched_only = False
+    if ctx.replay:
+        try:
+            sched_only = '"kind":"sched"' in open(env["VERIF_REPLAY"]).read().replace(" ", "")
+        except OSError:
+            pass
+    if not sched_only:
+        rc, out, outdir = ctx.go_test("./llm/", OVERLAY, "^TestVerifC16$", env=env, timeout=1500)
+        if rc != 0:
+            ctx.violation("driver-failed", "", out[-1500:], no_input=True)
+        st = ctx.read_stats(outdir)
+        ctx.coverage["code_variant"] = ("fixed (C16-W1 applied)" if st.get("code_variant_1") else
+                                        "pinned" if st.get("code_variant_0") else "undetected")
+        ctx.l1(outdir)
+        ctx.classify(ctx.l2(outdir))
+    # scheduler side: the real Scheduler.updateFreeSpace + composition with the real estimator
+    if not ctx.replay or sched_only:
+        env2 = dict(env)
+        env2["VERIF_N"] = ctx.scale(4000, 60000)
+        rc, out, outdir = ctx.go_test("./server/", OVERLAY_SCHED, "^TestVerifC16Sched$", env=env2, timeout=1500)
+        if rc != 0:
+            ctx.violation("driver-failed", "", out[-1500:], no_input=True)
+        ctx.read_stats(outdir)
+        ctx.l1(outdir, label="L1-sched")
+        ctx.classify(ctx.l2(outdir))
     ctx.assumptions.append("derived inputs (GraphSize, tensor/KV sizes, projector requirements, overhead) are "
                            "recomputed by the driver with the functions the estimator calls; flash attention off")
     if ctx.thorough:
